@@ -8,6 +8,7 @@ Oracle: spec/Config.tla (Effective / Accepts / FinalPort, and the start-up seque
                  the monitors of Config.tla.
 This module only moves files between TLC and the rig and classifies the disagreements they report.
 """
+import contextlib
 import fcntl
 import hashlib
 import json
@@ -22,6 +23,7 @@ PID = "C20"
 RIG = os.path.join(BIN, "cfg_rig")
 SITE_CFG = "teos/src/config.rs"
 SITE_MAIN = "teos/src/main.rs"
+SITE_TOOL = "teos/src/cli_config.rs"
 TEMPLATE = os.path.join(REPO, "teos", "src", "conf_template.toml")
 PORTS_LOCK = "/tmp/verif-C20-loopback-ports.lock"   # the binary stage listens on fixed loopback ports: one run at a time
 MAX_SIGNATURES = 10      # distinct disagreement signatures turned into VIOLATION lines per stage (all are counted)
@@ -43,7 +45,7 @@ def consts_for(tier, emit=True, families=None, deviations=()):
         unk_f = ["wrongnet", "bitcoin", "testnet4", "mainnetnet"]
         unk_c = ["liquid", "regtestnet", "signetnet", "net"]
         binfull = "TRUE"
-    fams = families or ["group", "plain", "switch", "fileonly", "portdef", "bin"]
+    fams = families or ["group", "plain", "switch", "fileonly", "portdef", "teoscli", "bin"]
     return {"Deviations": tla_set(deviations), "Families": tla_set(fams), "Contexts": tla_set(ctx),
             "UnknownF": tla_set(unk_f), "UnknownC": tla_set(unk_c), "BinFull": binfull,
             "Emit": "TRUE" if emit else "FALSE"}
@@ -75,7 +77,7 @@ def enumerate_cases(wd, tier, stats):
     seen = set()
     fams = {}
     meta = []
-    counts = {"lines": 0, "nontrivial": 0, "bad": 0}
+    counts = {"lines": 0, "nontrivial": 0, "bad": 0, "states": 0}
     samples = {}
 
     def on_line(line):
@@ -90,9 +92,11 @@ def enumerate_cases(wd, tier, stats):
             return
         c = val[1]
         counts["lines"] += 1
+        counts["states"] += 4 if c["prog"] == "teosd" else 3     # start, loaded, patched, running|refused / .., ready
         fams[c["fam"]] = fams.get(c["fam"], 0) + 1
         (out_b if c["fam"] == "bin" else out_c).write(json.dumps(c) + "\n")
-        key = hashlib.blake2b(json.dumps([c["file"], c["cli"]], sort_keys=True).encode(), digest_size=12).digest()
+        key = hashlib.blake2b(json.dumps([c["prog"], c["file"], c["cli"]], sort_keys=True).encode(),
+                              digest_size=12).digest()
         if key not in seen:
             seen.add(key)
             if nonempty(c["file"]) or nonempty(c["cli"]):
@@ -109,8 +113,9 @@ def enumerate_cases(wd, tier, stats):
     if len(meta) != 1 or counts["bad"]:
         raise ToolError("could not read META / CASE lines from TLC (%d meta, %d unreadable)" % (len(meta), counts["bad"]))
     # every case is printed when its start-up sequence ends: one terminal state per initial state
-    if counts["lines"] * 4 != r.distinct:
-        raise ToolError("TLC printed %d cases for %d states (4 per case expected)" % (counts["lines"], r.distinct))
+    if counts["states"] != r.distinct:
+        raise ToolError("TLC printed %d cases accounting for %d states, it found %d" %
+                        (counts["lines"], counts["states"], r.distinct))
     json.dump(meta[0], open(meta_path, "w"))
     stats["states"] += r.distinct
     stats["transitions"] += r.generated
@@ -147,7 +152,7 @@ def check_documentation(meta, verdict, stats):
         tpl, text = parse_template(TEMPLATE)
     except Exception as e:  # noqa: BLE001 - an unreadable template is a finding about the documentation, not a tool error
         verdict.disagree("doc-template:unreadable", "teos/src/conf_template.toml", "documented-default",
-                         "conf_template.toml cannot be read as TOML: %s" % e, {"error": str(e)})
+                         "conf_template.toml cannot be read as TOML: %s" % e, {"mode": "doc", "error": str(e)})
         return None, None
     creds = ("btc_rpc_user", "btc_rpc_password", "btc_rpc_cookie")
     n = 0
@@ -158,15 +163,16 @@ def check_documentation(meta, verdict, stats):
         if tpl[o] != v or type(tpl[o]) is not type(v):
             verdict.disagree("doc-template:" + o, "teos/src/conf_template.toml", "documented-default",
                              "conf_template.toml documents %s = %r, Config.tla's table of documented defaults says %r"
-                             % (o, tpl[o], v), {"option": o, "template": tpl[o], "specification": v})
+                             % (o, tpl[o], v), {"mode": "doc", "option": o, "template": tpl[o], "specification": v})
     if "btc_rpc_port" in tpl:
         n += 1
         want = meta["net_default_port"].get(tpl.get("btc_network", ""), None)
         if tpl["btc_rpc_port"] != want:
             verdict.disagree("doc-template:btc_rpc_port", "teos/src/conf_template.toml", "documented-default",
                              "conf_template.toml shows btc_rpc_port = %r for network %r; the network default is %r"
-                             % (tpl["btc_rpc_port"], tpl.get("btc_network"), want), {"template": tpl})
+                             % (tpl["btc_rpc_port"], tpl.get("btc_network"), want), {"mode": "doc", "template": tpl})
     stats["template_entries_checked"] = n
+    stats["tool_defaults"] = meta.get("tool_defaults", {})
     stats["template_keys_unknown_to_spec"] = sorted(k for k in tpl if k not in meta["opts"])
     return tpl, text
 
@@ -185,11 +191,12 @@ def classify_rig(res, verdict, site, scenario_prefix, mode, meta_path):
         if len(done) >= MAX_SIGNATURES:
             break
         done.add(key)
-        verdict.disagree(sig, site, "%s:%s" % (scenario_prefix, m["fam"]),
+        verdict.disagree(sig, SITE_TOOL if m["fam"] == "teoscli" and mode == "cases" else site,
+                         "%s:%s" % (scenario_prefix, m["fam"]),
                          "%s: the real code disagrees with Config.tla on [%s] for file=%s cli=%s (family %s, case line %d; "
                          "%d cases with this signature)" % (mode, sig, json.dumps(m["file"]), json.dumps(m["cli"]), m["fam"],
                                                             m["line"], res["signatures"].get("%s|%s" % (m["fam"], sig), 0)),
-                         {"mode": mode, "case": {k: m[k] for k in ("fam", "ctx", "file", "cli", "exp")}, "got": m["got"],
+                         {"mode": mode, "case": {k: m.get(k) for k in ("fam", "ctx", "prog", "file", "cli", "exp")}, "got": m["got"],
                           "differs": m["differs"]})
 
 
@@ -199,18 +206,31 @@ def run_cases(wd, meta_path, cases_path, verdict, stats):
     if res["cases"] != n_expected:
         raise ToolError("cfg_rig executed %d of %d cases" % (res["cases"], n_expected))
     for d in res["default_diffs"]:
-        verdict.disagree("default:" + d["option"], SITE_CFG + "::Default", "documented-default",
+        tool = d["option"].startswith("teos-cli:")
+        verdict.disagree("default:" + d["option"], (SITE_TOOL if tool else SITE_CFG) + "::Default", "documented-default",
                          "Config::default() has %s = %r, the documented default is %r" % (d["option"], d["code"], d["documented"]),
-                         {"mode": "default", "diff": d})
+                         {"mode": "default", "diff": d,
+                          "case": {"prog": "teos-cli" if tool else "teosd", "file": {}, "cli": {}}})
     classify_rig(res, verdict, SITE_CFG, "enumerated", "cases", meta_path)
-    stats["inproc"] = {k: res[k] for k in ("cases", "comparisons", "running", "refused", "mismatching_cases", "signatures",
-                                           "unmodelled_fields")}
+    # informational only: the "[default: X]" remarks of the -h texts against the documented defaults used as oracle
+    meta = json.load(open(meta_path))
+    notes = []
+    for prog, table in (("teosd", meta["defaults"]), ("teos-cli", meta["tool_defaults"])):
+        for o, h in sorted((res.get("help_defaults") or {}).get(prog, {}).items()):
+            want = meta["net_default_port"]["mainnet"] if o == "btc_rpc_port" else table.get(o)
+            if want is not None and str(want) != h:
+                notes.append("%s -h says %s defaults to %s; the documented default used as oracle is %s" % (prog, o, h, want))
+    stats["help_notes"] = notes
+    stats["inproc"] = {k: res.get(k) for k in ("cases", "comparisons", "running", "refused", "tool_ready",
+                                               "mismatching_cases", "signatures", "unmodelled_fields")}
     return res
 
 
-def run_teosd(wd, teosd, meta_path, bin_path, verdict, stats):
-    # bitcoind's default ports (and the two explicit ones of MC_Config) are machine-wide: concurrent runs of this stage
-    # take turns (the rig additionally ignores connections that carry another run's credentials marker)
+@contextlib.contextmanager
+def ports_lock(stats):
+    """bitcoind's default ports, the tower's default RPC port and the explicit ones of MC_Config are machine-wide:
+    concurrent runs of the binary stages take turns (the rig additionally ignores connections that carry another run's
+    credentials marker)."""
     with open(PORTS_LOCK, "a") as lk:
         t_wait = time.time()
         while True:
@@ -221,7 +241,12 @@ def run_teosd(wd, teosd, meta_path, bin_path, verdict, stats):
                 if time.time() - t_wait > 2400:
                     raise ToolError("another run holds %s for more than 40 minutes" % PORTS_LOCK)
                 time.sleep(1.0)
-        stats["ports_lock_wait_s"] = round(time.time() - t_wait, 1)
+        stats["ports_lock_wait_s"] = stats.get("ports_lock_wait_s", 0) + round(time.time() - t_wait, 1)
+        yield
+
+
+def run_teosd(wd, teosd, meta_path, bin_path, verdict, stats):
+    with ports_lock(stats):
         res = rig(["teosd", teosd, meta_path, bin_path, wd])
     if res["cases"] != stats["families"].get("bin", 0):
         raise ToolError("cfg_rig ran %d of %d binary cases" % (res["cases"], stats["families"].get("bin", 0)))
@@ -231,7 +256,21 @@ def run_teosd(wd, teosd, meta_path, bin_path, verdict, stats):
     stats["teosd"] = {k: res.get(k) for k in ("cases", "comparisons", "running", "refused", "mismatching_cases", "signatures",
                                           "process_runs", "unobservable", "unbound", "listeners",
                                           "reported_values_compared", "foreign_connections_ignored")}
-    stats["teosd"]["ports_lock_wait_s"] = stats.pop("ports_lock_wait_s", 0)
+    stats["teosd"]["ports_lock_wait_s"] = stats.get("ports_lock_wait_s", 0)
+    return res
+
+
+def run_toolbin(wd, teos_cli, meta_path, cases_path, verdict, stats):
+    """The teos-cli cases once more, on the real binary (cli.rs): where does it look for the tower."""
+    with ports_lock(stats):
+        res = rig(["toolbin", teos_cli, meta_path, cases_path, wd])
+    if res["cases"] != stats["families"].get("teoscli", 0):
+        raise ToolError("cfg_rig ran %d of %d teos-cli cases" % (res["cases"], stats["families"].get("teoscli", 0)))
+    if res["cases"] and res["unobservable"] == res["cases"]:
+        raise ToolError("no listener could be bound where teos-cli was expected to look for the tower: %s" % res["unbound"][:6])
+    classify_rig(res, verdict, "teos/src/cli.rs", "teos-cli-binary", "toolbin", meta_path)
+    stats["teos_cli_binary"] = {k: res.get(k) for k in ("cases", "comparisons", "mismatching_cases", "signatures",
+                                                        "unobservable", "unbound", "listeners")}
     return res
 
 
@@ -259,7 +298,8 @@ def judge_trace(wd, tr, verdict, stats, scenario):
             verdict.disagree(what, SITE_CFG, scenario,
                              "trace %s line %d (%d events): %s disagrees with Config.tla for file=%s cli=%s" %
                              (tr, where[0], len(where), what, json.dumps(ev.get("file")), json.dumps(ev.get("cli"))),
-                             {"mode": "trace", "case": {"file": ev.get("file"), "cli": ev.get("cli")}, "event": ev,
+                             {"mode": "trace", "case": {"prog": ev.get("prog", "teosd"), "file": ev.get("file"),
+                                                        "cli": ev.get("cli")}, "event": ev,
                               "tag": what})
     return tags
 
@@ -271,12 +311,13 @@ def random_traces(wd, meta_path, plan, verdict, stats):
         res = rig(["random", meta_path, str(n), str(sd * 1000 + i), tr, wd])
         stats["random_running"] += res["running"]
         stats["random_refused"] += res["refused"]
+        stats["random_tool"] += res.get("tool_ready", 0)
         stats["random_aborts"] += res["aborts"]
         keys = set()
         with open(tr) as f:
             for k, ln in enumerate(f):
                 ev = json.loads(ln)
-                keys.add(hashlib.blake2b(json.dumps([ev.get("file"), ev.get("cli")], sort_keys=True).encode(),
+                keys.add(hashlib.blake2b(json.dumps([ev.get("prog"), ev.get("file"), ev.get("cli")], sort_keys=True).encode(),
                                          digest_size=12).digest())
                 if i == 0 and k == 1:
                     stats["samples"].append({"direction": "impl->spec", "event": ev})
@@ -291,12 +332,19 @@ def template_trace(wd, meta_path, tpl, text, verdict, stats):
     inp = os.path.join(wd, "template_in.ndjson")
     only = {k: v for k, v in tpl.items() if k != "btc_rpc_cookie"}
     with open(inp, "w") as f:
-        f.write(json.dumps({"file": tpl, "cli": {}, "file_text": text}) + "\n")
-        f.write(json.dumps({"file": only, "cli": {}}) + "\n")
-        f.write(json.dumps({"file": tpl, "cli": {"btc_network": "regtest", "btc_rpc_port": 18999}, "file_text": text}) + "\n")
+        f.write(json.dumps({"prog": "teosd", "file": tpl, "cli": {}, "file_text": text}) + "\n")
+        f.write(json.dumps({"prog": "teosd", "file": only, "cli": {}}) + "\n")
+        f.write(json.dumps({"prog": "teosd", "file": tpl, "cli": {"btc_network": "regtest", "btc_rpc_port": 18999},
+                            "file_text": text}) + "\n")
+        f.write(json.dumps({"prog": "teos-cli", "file": tpl, "cli": {}, "file_text": text}) + "\n")
     tr = os.path.join(wd, "trace_template.ndjson")
     rig(["rerun", meta_path, inp, tr, wd])
     judge_trace(wd, tr, verdict, stats, "template")
+    # teos-cli's own documented defaults (teos-cli -h) live in cli_config.rs next to the code; the shared template
+    # documents the daemon's.  Where the two documents disagree on a setting both programs have, say so in the evidence.
+    stats["documentation_notes"] = [
+        "%s: conf_template.toml says %r, teos-cli -h says %r" % (o, tpl[o], v)
+        for o, v in sorted(stats.get("tool_defaults", {}).items()) if o in tpl and tpl[o] != v]
 
 
 def binding_selftest(wd, cases_path):
@@ -326,7 +374,7 @@ def binding_selftest(wd, cases_path):
             final["btc_network"] = sorted(e["final_network"])[0]
         file = c["file"] if isinstance(c["file"], dict) else {}
         cli = c["cli"] if isinstance(c["cli"], dict) else {}
-        return {"ev": "case", "file": file, "cli": cli,
+        return {"ev": "case", "prog": c["prog"], "file": file, "cli": cli,
                 "obs": {"patched": patched, "verdict": "running" if e["accept"] else "refused", "final": final}}
 
     clean = [event(c) for c in picked]
@@ -369,19 +417,27 @@ def deviation_runs(wd, stats):
 
 # ---------------------------------------------------------------------------------------------------------------------
 
-def replay_file(wd, path, meta_path, teosd, verdict, stats):
+def replay_file(wd, path, meta_path, teosd, teos_cli, verdict, stats):
     """Re-executes the sources of a replay file on the current tree and judges them again."""
     data = json.load(open(path))
     rp = data.get("replay", data)
     mode = rp.get("mode", "cases")
-    if mode == "teosd":
+    if mode == "toolbin":
+        bp = os.path.join(wd, "replay_tool.ndjson")
+        open(bp, "w").write(json.dumps(rp["case"]) + "\n")
+        stats["families"] = {"teoscli": 1}
+        run_toolbin(wd, teos_cli, meta_path, bp, verdict, stats)
+    elif mode == "doc":
+        check_documentation(json.load(open(meta_path)), verdict, stats)
+    elif mode == "teosd":
         bp = os.path.join(wd, "replay_bin.ndjson")
         open(bp, "w").write(json.dumps(rp["case"]) + "\n")
         stats["families"] = {"bin": 1}
         run_teosd(wd, teosd, meta_path, bp, verdict, stats)
     elif "case" in rp:
         inp = os.path.join(wd, "replay_in.ndjson")
-        open(inp, "w").write(json.dumps({"file": rp["case"]["file"], "cli": rp["case"]["cli"]}) + "\n")
+        open(inp, "w").write(json.dumps({"prog": rp["case"].get("prog", "teosd"), "file": rp["case"]["file"],
+                                         "cli": rp["case"]["cli"]}) + "\n")
         tr = os.path.join(wd, "trace_replay.ndjson")
         rig(["rerun", meta_path, inp, tr, wd])
         judge_trace(wd, tr, verdict, stats, "replay")
@@ -394,9 +450,10 @@ def main(tier, replay=None):
     wd = workdir(PID)
     build(["cfg_rig"])
     teosd = build_repo_bin("teos", "teosd")
+    teos_cli = build_repo_bin("teos", "teos-cli")
     verdict = Verdict(PID)
     stats = {"states": 0, "transitions": 0, "samples": [], "traces": 0, "events": 0, "random_running": 0,
-             "random_refused": 0, "random_aborts": 0, "random_distinct": 0}
+             "random_refused": 0, "random_tool": 0, "random_aborts": 0, "random_distinct": 0}
 
     if replay:
         r = tlc("MC_Config", "MC_Config.cfg", wd, workers=2, timeout=600,
@@ -406,7 +463,7 @@ def main(tier, replay=None):
             raise ToolError("cannot obtain META from TLC")
         meta_path = os.path.join(wd, "meta.json")
         json.dump(metas[0], open(meta_path, "w"))
-        replay_file(wd, replay, meta_path, teosd, verdict, stats)
+        replay_file(wd, replay, meta_path, teosd, teos_cli, verdict, stats)
         nviol = verdict.finish()
         log("replay of %s: %s" % (replay, "still disagrees" if nviol else "no disagreement"))
         return 1 if nviol else 0
@@ -420,6 +477,7 @@ def main(tier, replay=None):
     deferred = []
     stages = [
         ("teosd binary", lambda: run_teosd(wd, teosd, meta_path, bin_path, verdict, stats)),
+        ("teos-cli binary", lambda: run_toolbin(wd, teos_cli, meta_path, cases_path, verdict, stats)),
         ("template", lambda: template_trace(wd, meta_path, tpl, text, verdict, stats)),
         ("random traces", lambda: random_traces(wd, meta_path, [2000, 2000] if tier == "quick" else [5000] * 6, verdict,
                                                 stats)),
@@ -435,9 +493,10 @@ def main(tier, replay=None):
     if deferred and not verdict.violations:
         raise ToolError("; ".join(deferred))
     stats.setdefault("teosd", {"cases": 0, "skipped": deferred})
+    stats.setdefault("teos_cli_binary", {"cases": 0, "skipped": deferred})
 
     nviol = verdict.finish()
-    executed = stats["inproc"]["cases"] + stats["teosd"]["cases"]
+    executed = stats["inproc"]["cases"] + stats["teosd"]["cases"] + stats["teos_cli_binary"]["cases"]
     write_evidence(PID, tier, "model_checking", {
         "states": stats["states"],
         "transitions": stats["transitions"],
@@ -448,7 +507,8 @@ def main(tier, replay=None):
                 "file/CLI, port present/absent x file/CLI, every subset of the 3 credential fields x file/CLI; plain: every "
                 "subset of the 7 value options x file/CLI; switch: absent/false/true in file x absent/given on CLI for the 3 "
                 "switches and the 2 one-shot switches; fileonly: every subset of the 7 file-only options; portdef: an explicit port "
-                "equal to each network's default x each network, in either source), each family in "
+                "equal to each network's default x each network, in either source; teoscli: teos-cli's two settings present/absent "
+                "in file x on its command line), each family in "
                 "every context; every case is executed on the real from_file/Opt/patch_with_options/verify (family bin: on "
                 "the real teosd binary) and compared with the expectation printed by TLC. distinct = distinct (file, cli) "
                 "pairs (hash of the JSON of both sources), non-trivial = at least one option present in a source; counted "
@@ -461,14 +521,17 @@ def main(tier, replay=None):
         "tlc_wall_s": stats["tlc_wall_s"],
         "inproc": stats["inproc"],
         "teosd_binary": stats["teosd"],
+        "teos_cli_binary": stats["teos_cli_binary"],
         "random_traces": stats["traces"],
         "random_trace_events": stats["events"],
         "random_distinct_sources": stats["random_distinct"],
         "random_running": stats["random_running"],
         "random_refused": stats["random_refused"],
+        "random_teos_cli": stats["random_tool"],
         "random_aborts": stats["random_aborts"],
         "template_entries_checked": stats.get("template_entries_checked", 0),
         "template_keys_unknown_to_spec": stats.get("template_keys_unknown_to_spec", []),
+        "documentation_notes": stats.get("documentation_notes", []) + stats.get("help_notes", []),
         "selftest_corruptions_detected": stats["selftest_corruptions_detected"],
         "deviations_caught_by": stats.get("deviations_caught_by", {}),
         "stages_not_completed": deferred,
@@ -487,6 +550,7 @@ def main(tier, replay=None):
         "teosd binary: observed through exit status, the TCP connection it opens for bitcoind (address, port, Authorization "
         "header) on loopback listeners, the directories it creates, the number of tower keys after two starts and its "
         "'Custom config arg' report; settings that only act after bitcoind was reached (API/RPC binds, subscription "
-        "parameters, force_update) are observed in-process and through that report only",
+        "parameters, force_update) are observed in-process and through that report only; teos-cli binary: observed "
+        "through the TCP connection it opens for the tower (address, port)",
     ], time.time() - t0, nviol)
     return 1 if nviol else 0
